@@ -1,4 +1,5 @@
 import Prom.Lemmas.C01Aux
+import Prom.Lemmas.C01Mono
 
 namespace Prom.C01
 open Prom Prom.Conc
@@ -111,6 +112,243 @@ theorem int_inc_monotone (v : UInt64) (op : String) (hn : isSubOp op = false)
   rw [UInt64.le_iff_toNat_le, UInt64.toNat_add]
   rw [Nat.mod_eq_of_lt hov]
   omega
+
+/-! ## whole-run monotonicity of the integer counter -/
+
+/-- reachability composes -/
+theorem AReach.trans {s0 s1 s2 : ASt} (h1 : AReach s0 s1) (h2 : AReach s1 s2) : AReach s0 s2 := by
+  induction h2 with
+  | init => exact h1
+  | step _ hs ih => exact .step ih hs
+
+/-- the flavour of the cell never changes -/
+theorem aItem_float {s s' : ASt} {it : Item} (h : aItem s it = .ok s') : s'.float = s.float := by
+  cases aItem_shape h with
+  | commit e th pc rv mem' hth hpc hev hs => subst hs; rfl
+  | cont e th pc pc' hth hpc hs => subst hs; rfl
+  | callSkip t th hth hpc hrv hsk hs => subst hs; rfl
+  | callOpen t th hth hpc hrv hsk hs => subst hs; rfl
+  | ret t th rv hth hrv hs => subst hs; rfl
+
+/-- the flavour of the cell is the one of the initial state, along any run -/
+theorem reach_float {s0 s : ASt} (h : AReach s0 s) : s.float = s0.float := by
+  induction h with
+  | init => rfl
+  | step _ hs ih => rw [aItem_float hs, ih]
+
+/-- **commit order over a whole run**: whatever happens after a state, the commit log of that state
+    stays a prefix of the later log — an operation committed now precedes, in the log, every
+    operation that commits later -/
+theorem reach_lin_prefix {s s' : ASt} (h : AReach s s') : s.lin <+: s'.lin := by
+  induction h with
+  | init => exact List.prefix_refl _
+  | step _ hs ih => exact ih.trans (commit_order_fixed hs)
+
+/-- a thread keeps its program, and its call index only grows -/
+theorem aItem_th_pres {s s' : ASt} {it : Item} (h : aItem s it = .ok s') {t : Nat} {th : Th APc}
+    (hth : s.ths[t]? = some th) : ∃ th', s'.ths[t]? = some th' ∧ th'.ops = th.ops ∧ th.idx ≤ th'.idx := by
+  have hlt : t < s.ths.length := (List.getElem?_eq_some_iff.mp hth).1
+  have key : ∀ (u : Nat) (th0 thn : Th APc), s.ths[u]? = some th0 → thn.ops = th0.ops → th0.idx ≤ thn.idx →
+      ∃ th', (s.ths.set u thn)[t]? = some th' ∧ th'.ops = th.ops ∧ th.idx ≤ th'.idx := by
+    intro u th0 thn hu hops hidx
+    rw [List.getElem?_set]
+    by_cases hut : u = t
+    · subst hut
+      rw [hth] at hu; cases hu
+      simp only [if_true, hlt]
+      exact ⟨thn, rfl, hops, hidx⟩
+    · simp only [hut, if_false]
+      exact ⟨th, hth, rfl, Nat.le_refl _⟩
+  cases aItem_shape h with
+  | commit e th0 pc rv mem' hth0 hpc hev hs => subst hs; exact key _ th0 _ hth0 rfl (Nat.le_refl _)
+  | cont e th0 pc pc' hth0 hpc hs => subst hs; exact key _ th0 _ hth0 rfl (Nat.le_refl _)
+  | callSkip t0 th0 hth0 hpc hrv hsk hs => subst hs; exact key _ th0 _ hth0 rfl (Nat.le_refl _)
+  | callOpen t0 th0 hth0 hpc hrv hsk hs => subst hs; exact key _ th0 _ hth0 rfl (Nat.le_refl _)
+  | ret t0 th0 rv hth0 hrv hs => subst hs; exact key _ th0 _ hth0 rfl (Nat.le_succ _)
+
+/-- along any run a thread keeps its program, and its call index only grows -/
+theorem reach_th_pres {s s' : ASt} (h : AReach s s') {t : Nat} {th : Th APc}
+    (hth : s.ths[t]? = some th) : ∃ th', s'.ths[t]? = some th' ∧ th'.ops = th.ops ∧ th.idx ≤ th'.idx := by
+  induction h with
+  | init => exact ⟨th, hth, rfl, Nat.le_refl _⟩
+  | step _ hs ih =>
+    obtain ⟨th1, h1, ho1, hi1⟩ := ih
+    obtain ⟨th2, h2, ho2, hi2⟩ := aItem_th_pres hs h1
+    exact ⟨th2, h2, ho2.trans ho1, Nat.le_trans hi1 hi2⟩
+
+/-- **reads_monotone_int** — every accepted run of an INTEGER counter cell (any number of threads,
+    any schedule) whose committed operations are only `get` / `inc` / `incby` / `lflush` (no
+    `reset`, no `set`, no `dec` / `sub`) and whose increments do not add up to `2^64`: for any two
+    committed `get`s at positions `i < j` of the commit log, the earlier one returned `hexStr vi`,
+    the later one `hexStr vj`, where `vi`, `vj` are the values of the cell at those positions, and
+    `vi ≤ vj`. Reads never go backwards. -/
+theorem reads_monotone_int {counter : Bool} {prog : List (List String)} {s : ASt}
+    (h : AReach (aInit false counter prog) s) (hi : IncOnly s.lin) (hw : NoWrap s.lin)
+    {i j : Nat} (hij : i < j) {x y : LinEv} (hx : s.lin[i]? = some x) (hy : s.lin[j]? = some y)
+    (hgx : opName x.op = "get") (hgy : opName y.op = "get") :
+    ∃ vi vj, (valuesAlong false 0 s.lin)[i]? = some vi ∧ (valuesAlong false 0 s.lin)[j]? = some vj ∧
+      x.rv = hexStr vi ∧ y.rv = hexStr vj ∧ vi ≤ vj := by
+  have hl := cell_linearizable h
+  have hf : s.float = false := reach_float h
+  rw [hf] at hl
+  exact spec_reads_monotone hl hi hw hij hx hy hgx hgy
+
+/-- the same, on whatever values the two returned strings denote (`hexStr` is injective) -/
+theorem reads_monotone_int' {counter : Bool} {prog : List (List String)} {s : ASt}
+    (h : AReach (aInit false counter prog) s) (hi : IncOnly s.lin) (hw : NoWrap s.lin)
+    {i j : Nat} (hij : i < j) {x y : LinEv} (hx : s.lin[i]? = some x) (hy : s.lin[j]? = some y)
+    (hgx : opName x.op = "get") (hgy : opName y.op = "get")
+    {a b : UInt64} (ha : x.rv = hexStr a) (hb : y.rv = hexStr b) : a ≤ b := by
+  have hl := cell_linearizable h
+  have hf : s.float = false := reach_float h
+  rw [hf] at hl
+  exact spec_reads_monotone' hl hi hw hij hx hy hgx hgy ha hb
+
+/-- the values recorded for the operations committed so far are never revised by the rest of the run -/
+theorem values_fixed {float : Bool} {s s' : ASt} (h : AReach s s') :
+    valuesAlong float 0 s.lin <+: valuesAlong float 0 s'.lin :=
+  valuesAlong_prefix float 0 (reach_lin_prefix h)
+
+/-- **real_time_commit_order** — the commit order is consistent with real time. Take any state `s`
+    of an accepted run and any continuation to `s'`. A call (`t`, `i`) that has RETURNED in `s`
+    and a call (`t'`, `i'`) that in `s` has not started (or is in progress but has not taken effect
+    yet): wherever the two appear in the later commit log, the first is before the second. (A call
+    commits at a step between its call mark and its return mark, and the log only grows at its end.) -/
+theorem real_time_commit_order {float counter : Bool} {prog : List (List String)} {s s' : ASt}
+    (h : AReach (aInit float counter prog) s) (h' : AReach s s')
+    {t t' : Nat} {th th' : Th APc} (hth : s.ths[t]? = some th) (hth' : s.ths[t']? = some th')
+    {i i' : Nat} (hret : i < th.idx) (hnot : th'.idx < i' ∨ (i' = th'.idx ∧ th'.retv = none))
+    {p q : Nat} {x y : LinEv} (hx : s'.lin[p]? = some x) (hy : s'.lin[q]? = some y)
+    (hxt : x.tid = t ∧ x.idx = i) (hyt : y.tid = t' ∧ y.idx = i') : p < q := by
+  obtain ⟨ext, hext⟩ := reach_lin_prefix h'
+  -- the later call has no commit in `s.lin`
+  have c0 : commits s.lin t' i' = 0 := by
+    rw [exactly_once h t' th' hth' i']
+    rcases hnot with hn | ⟨hn, hr⟩
+    · have h1 : ¬ i' < th'.idx := by omega
+      have h2 : ¬ i' = th'.idx := by omega
+      simp [h1, h2]
+    · have h1 : ¬ i' < th'.idx := by omega
+      simp [h1, hr]
+  -- the returned call has as many commits in `s'.lin` as in `s.lin`
+  obtain ⟨th2, hth2, hops, hidx⟩ := reach_th_pres h' hth
+  have c1 : commits s'.lin t i = commits s.lin t i := by
+    rw [exactly_once h t th hth i, exactly_once (h.trans h') t th2 hth2 i]
+    have : i < th2.idx := by omega
+    simp [hret, this, hops]
+  rw [← hext] at c1 hx hy
+  have hq : s.lin.length ≤ q := commits_zero_pos c0 hy hyt
+  have hp : p < s.lin.length := commits_same_pos c1 hx hxt
+  omega
+
+/-- **reads_real_time_monotone** — "reads that follow one another in real time never decrease unless
+    `reset()` intervened", for the integer counter: in an accepted run whose committed operations are
+    increment-only and do not wrap, a `get` that has RETURNED before another `get` is called (state
+    `s` lies between the return mark of the first and the commit of the second) returned a value
+    `≤` the value the second one returns. -/
+theorem reads_real_time_monotone {counter : Bool} {prog : List (List String)} {s s' : ASt}
+    (h : AReach (aInit false counter prog) s) (h' : AReach s s')
+    (hi : IncOnly s'.lin) (hw : NoWrap s'.lin)
+    {t t' : Nat} {th th' : Th APc} (hth : s.ths[t]? = some th) (hth' : s.ths[t']? = some th')
+    {i i' : Nat} (hret : i < th.idx) (hnot : th'.idx < i' ∨ (i' = th'.idx ∧ th'.retv = none))
+    {x y : LinEv} (hx : x ∈ s'.lin) (hy : y ∈ s'.lin)
+    (hxt : x.tid = t ∧ x.idx = i) (hyt : y.tid = t' ∧ y.idx = i')
+    (hgx : opName x.op = "get") (hgy : opName y.op = "get") :
+    ∃ vx vy, x.rv = hexStr vx ∧ y.rv = hexStr vy ∧ vx ≤ vy := by
+  obtain ⟨p, hp⟩ := List.getElem?_of_mem hx
+  obtain ⟨q, hq⟩ := List.getElem?_of_mem hy
+  have hpq := real_time_commit_order h h' hth hth' hret hnot hp hq hxt hyt
+  obtain ⟨vi, vj, _, _, h1, h2, h3⟩ := reads_monotone_int (h.trans h') hi hw hpq hp hq hgx hgy
+  exact ⟨vi, vj, h1, h2, h3⟩
+
+/-- the log of the run: thread 0 `inc`, thread 1 `get` (reads 1), thread 0 `reset`, thread 1 `get`
+    (reads 0) -/
+def resetLog : List LinEv := [⟨0, 0, "inc", ""⟩, ⟨1, 0, "get", "1"⟩, ⟨0, 1, "reset", ""⟩, ⟨1, 1, "get", "0"⟩]
+
+/-- **reset_allows_decrease** — the hypothesis "no `reset`" is needed: `inc; get; reset; get` is a
+    legal sequential history of the integer cell (no wrap-around anywhere), the cell values along it
+    are 1, 1, 0, 0, and the second `get` returns less than the first; the log is not `IncOnly`, and it
+    is exactly the `reset` that breaks it: without it the log is `IncOnly` and `NoWrap` -/
+theorem reset_allows_decrease :
+    specRun false 0 resetLog = some 0 ∧ valuesAlong false 0 resetLog = [1, 1, 0, 0] ∧
+      ¬ List.Pairwise (· ≤ ·) (valuesAlong false 0 resetLog) ∧
+      ¬ IncOnly resetLog ∧ IncOnly (resetLog.eraseIdx 2) ∧ NoWrap (resetLog.eraseIdx 2) := by
+  have h1 : specRun false 0 resetLog = some 0 := by
+    simp [specRun, resetLog, specApply_inc_lit, specApply_get_lit, specApply_reset_lit, hexStr_one, hexStr_zero]
+  have h2 : valuesAlong false 0 resetLog = [1, 1, 0, 0] := by
+    simp [valuesAlong, resetLog, specApply_inc_lit, specApply_get_lit, specApply_reset_lit]
+  refine ⟨h1, h2, ?_, ?_, ?_, ?_⟩
+  · rw [h2]; decide
+  · intro hi
+    have := hi ⟨0, 1, "reset", ""⟩ (by simp [resetLog])
+    simp [opName_reset] at this
+  · intro x hx
+    simp only [resetLog, List.eraseIdx, List.mem_cons, List.not_mem_nil, or_false] at hx
+    rcases hx with rfl | rfl | rfl <;> simp [opName_get, opName_inc]
+  · simp [NoWrap, deltaSum, resetLog, opDeltaNat, opName_get, opName_inc, intDelta, u64OfInt_one]
+
+/-- a run accepted item by item leads to a reachable state -/
+theorem runItems_reach {s s' : ASt} {tr : List Item} {n : Nat} (h : runItems aItem s tr n = .ok s') :
+    AReach s s' := by
+  induction tr generalizing s n with
+  | nil => simp only [runItems, Except.ok.injEq] at h; subst h; exact .init
+  | cons it r ih =>
+    simp only [runItems] at h
+    split at h
+    · next s1 h1 => exact AReach.trans (.step .init h1) (ih h)
+    · cases h
+
+/-- an interleaving of the programs `inc; reset` (thread 0) and `get; get` (thread 1), as the shim
+    reports it: call mark, the atomic event (`fetch_add 1` → old value 0; `load` → 1; `store 0`;
+    `load` → 0), return mark with the returned value -/
+def resetTrace : List Item :=
+  [.call 0 "0" "inc", .ev ⟨0, "A", "v0", "Relaxed", 1, 0, 0, true⟩, .ret 0 "0" "",
+   .call 1 "0" "get", .ev ⟨1, "L", "v0", "Relaxed", 0, 0, 1, true⟩, .ret 1 "0" "1",
+   .call 0 "1" "reset", .ev ⟨0, "S", "v0", "Relaxed", 0, 0, 0, true⟩, .ret 0 "1" "",
+   .call 1 "1" "get", .ev ⟨1, "L", "v0", "Relaxed", 0, 0, 0, true⟩, .ret 1 "1" "0"]
+
+/-- **reset_allows_decrease_run** — the four-operation history of `reset_allows_decrease` is the
+    commit log of an accepted run of the machine (the trace `resetTrace`: both `get`s of thread 1
+    are called after the previous call has returned, the first returns `"1"`, the second `"0"`): the
+    decrease after a `reset` is observable in real time, not just a feature of the specification -/
+theorem reset_allows_decrease_run :
+    ∃ s, runItems aItem (aInit false true [["inc", "reset"], ["get", "get"]]) resetTrace 0 = .ok s ∧
+      AReach (aInit false true [["inc", "reset"], ["get", "get"]]) s ∧ s.lin = resetLog ∧ s.mem = 0 := by
+  have r0 : Nat.repr 0 = "0" := by decide +kernel
+  have r1 : Nat.repr 1 = "1" := by decide +kernel
+  have og : ordGe "Relaxed" "Relaxed" = true := by decide +kernel
+  have h : ∃ s, runItems aItem (aInit false true [["inc", "reset"], ["get", "get"]]) resetTrace 0 = .ok s ∧
+      s.lin = resetLog ∧ s.mem = 0 := by
+    simp [runItems, resetTrace, resetLog, aItem, aStep, aEv, Conc.guard, aInit, openCall, closeCall, r0, r1,
+      opName_inc, opName_get, opName_reset, u64OfInt_zero, u64OfInt_one, og, isSubOp, intDelta, hexStr_one, hexStr_zero]
+  obtain ⟨s, hr, hl, hm⟩ := h
+  exact ⟨s, hr, runItems_reach hr, hl, hm⟩
+
+/-- non-vacuity of `reads_monotone_int` / `reads_real_time_monotone`: an accepted run of `inc; inc`
+    against `get; get` whose commit log (`inc, get, inc, get`, reads 1 then 2) is `IncOnly` and `NoWrap` -/
+example : ∃ s, AReach (aInit false true [["inc", "inc"], ["get", "get"]]) s ∧
+    s.lin = [⟨0, 0, "inc", ""⟩, ⟨1, 0, "get", "1"⟩, ⟨0, 1, "inc", ""⟩, ⟨1, 1, "get", "2"⟩] ∧
+    IncOnly s.lin ∧ NoWrap s.lin := by
+  have r0 : Nat.repr 0 = "0" := by decide +kernel
+  have r1 : Nat.repr 1 = "1" := by decide +kernel
+  have og : ordGe "Relaxed" "Relaxed" = true := by decide +kernel
+  have h2 : hexStr 2 = "2" := by decide +kernel
+  have h : ∃ s, runItems aItem (aInit false true [["inc", "inc"], ["get", "get"]])
+      [.call 0 "0" "inc", .call 1 "0" "get", .ev ⟨0, "A", "v0", "Relaxed", 1, 0, 0, true⟩,
+       .ev ⟨1, "L", "v0", "Relaxed", 0, 0, 1, true⟩, .ret 1 "0" "1", .ret 0 "0" "",
+       .call 0 "1" "inc", .ev ⟨0, "A", "v0", "Relaxed", 1, 0, 1, true⟩, .ret 0 "1" "",
+       .call 1 "1" "get", .ev ⟨1, "L", "v0", "Relaxed", 0, 0, 2, true⟩, .ret 1 "1" "2"] 0 = .ok s ∧
+      s.lin = [⟨0, 0, "inc", ""⟩, ⟨1, 0, "get", "1"⟩, ⟨0, 1, "inc", ""⟩, ⟨1, 1, "get", "2"⟩] := by
+    simp [runItems, aItem, aStep, aEv, Conc.guard, aInit, openCall, closeCall, r0, r1,
+      opName_inc, opName_get, u64OfInt_one, og, isSubOp, intDelta, hexStr_one, h2]
+  obtain ⟨s, hr, hl⟩ := h
+  refine ⟨s, runItems_reach hr, hl, ?_, ?_⟩
+  · rw [hl]
+    intro x hx
+    simp only [List.mem_cons, List.not_mem_nil, or_false] at hx
+    rcases hx with rfl | rfl | rfl | rfl <;> simp [opName_get, opName_inc]
+  · rw [hl]
+    simp [NoWrap, deltaSum, opDeltaNat, opName_get, opName_inc, intDelta, u64OfInt_one]
 
 /-- non-vacuity: the initial state of a two-thread program is reachable (and the invariants hold of it) -/
 example : AReach (aInit false true [["inc"], ["get"]]) (aInit false true [["inc"], ["get"]]) ∧
